@@ -4,6 +4,7 @@ package c20
 
 import (
 	"bytes"
+	"context"
 	"encoding/json"
 	"errors"
 	"fmt"
@@ -37,6 +38,13 @@ type mach struct {
 	// cache candidates: byte-identical successful swap / mint requests
 	cached []cachedReq
 	count  map[string]int
+	// melts whose payment is in flight (quote id, payment hash, inputs)
+	pending []pendingMelt
+}
+
+type pendingMelt struct {
+	qid, hash string
+	inputs    cashu.Proofs
 }
 
 type cachedReq struct {
@@ -150,15 +158,15 @@ func outsJSON(os []world.Out) json.RawMessage {
 // ---------------------------------------------------------------- shape validation
 
 var (
-	hex66   = regexp.MustCompile(`^0[23][0-9a-f]{64}$`)
-	hex64   = regexp.MustCompile(`^[0-9a-f]{64}$`)
-	hex16   = regexp.MustCompile(`^[0-9a-f]{16}$`)
+	hex66         = regexp.MustCompile(`^0[23][0-9a-f]{64}$`)
+	hex64         = regexp.MustCompile(`^[0-9a-f]{64}$`)
+	hex16         = regexp.MustCompile(`^[0-9a-f]{16}$`)
 	genericDetail = "mint is currently unable to process request"
 )
 
-func isNum(v any) bool   { _, ok := v.(float64); return ok }
-func isStr(v any) bool   { _, ok := v.(string); return ok }
-func isBool(v any) bool  { _, ok := v.(bool); return ok }
+func isNum(v any) bool  { _, ok := v.(float64); return ok }
+func isStr(v any) bool  { _, ok := v.(string); return ok }
+func isBool(v any) bool { _, ok := v.(bool); return ok }
 func strIn(v any, set ...string) bool {
 	s, ok := v.(string)
 	if !ok {
@@ -653,6 +661,7 @@ func (m *mach) opMelt(t *rapid.T) {
 		}
 	case "pending":
 		m.w.AcceptInputs("melt", inputs, world.Pending, -1)
+		m.pending = append(m.pending, pendingMelt{qid: qid, hash: inv.Hash, inputs: inputs})
 		r2 := m.do("POST", "/v1/melt/bolt11", obj(kv{"quote", qid}, kv{"inputs", inJSON}))
 		m.checkRefusal(r2, "melt_pending_quote", 20005)
 		// swapping pending inputs
@@ -929,7 +938,11 @@ func (m *mach) opFault(t *rapid.T) {
 		m.fund(rapid.Uint64Range(8, 300).Draw(t, "fund"))
 		return
 	}
-	endpoint := rapid.SampledFrom([]string{"swap", "mint_quote", "mint", "melt_quote", "checkstate", "restore", "quote_state", "info", "melt"}).Draw(t, "fault_endpoint")
+	endpoint := rapid.SampledFrom([]string{"swap", "mint_quote", "mint", "melt_quote", "checkstate", "restore", "quote_state", "info", "melt", "checkstate_pending", "checkstate_pending", "melt_quote_state_pending"}).Draw(t, "fault_endpoint")
+	if strings.HasSuffix(endpoint, "_pending") && len(m.pending) == 0 {
+		endpoint = "checkstate"
+	}
+	var pm *pendingMelt
 	k := rapid.IntRange(0, 7).Draw(t, "fault_at")
 	from := rapid.Bool().Draw(t, "fault_from")
 	lnFault := rapid.IntRange(0, 4).Draw(t, "fault_ln") == 0
@@ -1003,6 +1016,27 @@ func (m *mach) opFault(t *rapid.T) {
 		r = m.do("POST", "/v1/melt/quote/bolt11", obj(kv{"request", inv.Request}, kv{"unit", "sat"}))
 	case "checkstate":
 		r = m.do("POST", "/v1/checkstate", obj(kv{"Ys", []string{sp[0].Y}}))
+	case "checkstate_pending", "melt_quote_state_pending":
+		// the request walks into the resolution of an in-flight melt (nested quote-state check: LN lookup, then up
+		// to four storage writes) - with the payment still in flight, just succeeded or just failed
+		i := rapid.IntRange(0, len(m.pending)-1).Draw(t, "fault_pending_melt")
+		pm = &m.pending[i]
+		resolution := rapid.SampledFrom([]string{"inflight", "succeeded", "succeeded", "failed"}).Draw(t, "fault_pending_resolution")
+		if resolution != "inflight" {
+			m.w.LN.Resolve(pm.hash, resolution == "succeeded")
+		}
+		inputs = pm.inputs
+		rec.Class("fault_on_pending_melt_" + resolution)
+		if endpoint == "checkstate_pending" {
+			var ys []string
+			for _, in := range pm.inputs {
+				_, y := world.Y(in.Secret)
+				ys = append(ys, y)
+			}
+			r = m.do("POST", "/v1/checkstate", obj(kv{"Ys", ys}))
+		} else {
+			r = m.do("GET", "/v1/melt/quote/bolt11/"+pm.qid, nil)
+		}
 	case "restore":
 		if len(m.w.M.SignedOrder) == 0 {
 			return
@@ -1078,6 +1112,19 @@ func (m *mach) opFault(t *rapid.T) {
 	if len(inputs) > 0 {
 		m.w.ResyncProofStates(inputs, nil)
 	}
+	if pm != nil {
+		// let the mint finish what the fault interrupted, then drop the melt from the in-flight list if it is settled
+		m.w.Mint.GetMeltQuoteState(ctxBg(), pm.qid)
+		m.w.ResyncProofStates(pm.inputs, nil)
+		if mp := m.w.M.Proofs[pm.inputs[0].Secret]; mp == nil || mp.State != world.Pending {
+			for i := range m.pending {
+				if m.pending[i].qid == pm.qid {
+					m.pending = append(m.pending[:i], m.pending[i+1:]...)
+					break
+				}
+			}
+		}
+	}
 	if r.Status == 200 && (endpoint == "swap" || endpoint == "mint") {
 		if endpoint == "swap" {
 			for _, in := range inputs {
@@ -1107,14 +1154,14 @@ func propSurface(t *rapid.T) {
 	m := &mach{t: t, w: w, count: map[string]int{}}
 	m.fund(rapid.Uint64Range(16, 500).Draw(t, "first_fund"))
 	t.Repeat(map[string]func(*rapid.T){
-		"fund":   func(t *rapid.T) { m.t = t; m.fund(rapid.Uint64Range(1, 500).Draw(t, "fund")) },
-		"swap":   func(t *rapid.T) { m.t = t; m.opSwap(t) },
-		"swap2":  func(t *rapid.T) { m.t = t; m.opSwap(t) },
-		"mintx":  func(t *rapid.T) { m.t = t; m.opMintRefusals(t) },
-		"melt":   func(t *rapid.T) { m.t = t; m.opMelt(t) },
-		"reads":  func(t *rapid.T) { m.t = t; m.opReads(t) },
-		"cache":  func(t *rapid.T) { m.t = t; m.opCache(t) },
-		"fault":  func(t *rapid.T) { m.t = t; m.opFault(t) },
+		"fund":  func(t *rapid.T) { m.t = t; m.fund(rapid.Uint64Range(1, 500).Draw(t, "fund")) },
+		"swap":  func(t *rapid.T) { m.t = t; m.opSwap(t) },
+		"swap2": func(t *rapid.T) { m.t = t; m.opSwap(t) },
+		"mintx": func(t *rapid.T) { m.t = t; m.opMintRefusals(t) },
+		"melt":  func(t *rapid.T) { m.t = t; m.opMelt(t) },
+		"reads": func(t *rapid.T) { m.t = t; m.opReads(t) },
+		"cache": func(t *rapid.T) { m.t = t; m.opCache(t) },
+		"fault": func(t *rapid.T) { m.t = t; m.opFault(t) },
 		"rotate": func(t *rapid.T) {
 			m.t = t
 			if len(w.KSOrder) < 3 {
@@ -1128,3 +1175,5 @@ func propSurface(t *rapid.T) {
 }
 
 func TestSurface(t *testing.T) { rapid.Check(t, propSurface) }
+
+func ctxBg() context.Context { return context.Background() }
